@@ -280,6 +280,9 @@ class ExprMixin:
         if self.frame is None or self.spec_depth > 0:
             return
         allowed = [ref.t >= st.alloc0]
+        if fkey[0] == 'Ghost' and self.inline_depth == 0 and not any(
+                (not isinstance(x[0], str)) and z3.is_int_value(x[0]) and x[0].as_long() == -1 for x in self.frame):
+            pass
         for x in self.frame:
             r, fk = x[0], x[1]
             if isinstance(r, str):
@@ -609,6 +612,9 @@ class ExprMixin:
     def resolve_global(self, st, name):
         if name in self.extra_names:
             return self.extra_names[name]
+        if name == 'GHOST' and 'Ghost' in api.MODELS:
+            # the one ghost object: global specification state (counters of open files, ...)
+            return SV(TRef('Ghost'), z3.IntVal(-1))
         # specification functions and primitives
         if self.spec_env is not None or self.spec_depth > 0 or self.in_contract:
             ent = self.spec_lookup(name)
@@ -630,7 +636,7 @@ class ExprMixin:
             return ent
         if name in ('len', 'isinstance', 'str', 'int', 'repr', 'getattr', 'hasattr', 'list',
                     'tuple', 'sorted', 'range', 'iter', 'type', 'bool', 'float', 'dict',
-                    'min', 'max', 'abs', 'id', 'reduce', 'all', 'any', 'set', 'enumerate', 'zip'):
+                    'min', 'max', 'abs', 'id', 'reduce', 'all', 'any', 'set', 'enumerate', 'zip', 'bytes'):
             return Entity('builtin', name)
         c = self.classes.canon(name)
         if c.startswith('builtin:'):
@@ -1047,7 +1053,8 @@ class ExprMixin:
                 try:
                     return self.const_value(ast.literal_eval(val))
                 except Exception:
-                    raise OutsideSubset('class attribute %s.%s' % (ty.cls, attr))
+                    # a class-level object (compiled pattern, ...): resolved by contracts on its methods
+                    return Entity('global', qa + '.' + attr)
             if ty.cls.startswith('list:') or ty.cls.startswith('dict:') or ty.cls.startswith('rxmatch:'):
                 return Entity('method', attr, base)
             # attribute of a subclass: implicit downcast with an AttributeError obligation
@@ -1072,7 +1079,7 @@ class ExprMixin:
             nb = self.narrow_union(st, base, node, 'attribute ' + attr,
                                    lambda t: isinstance(t, TRef) and self.has_attr(t.cls, attr))
             return self.getattr_value(st, nb, attr, node)
-        if ty == TStr or isinstance(ty, (TSeq, TMap, TTuple)):
+        if ty == TStr or isinstance(ty, (TSeq, TMap, TTuple)) or isinstance(ty, TOpaque):
             return Entity('method', attr, base)
         raise OutsideSubset('attribute %s on %s' % (attr, ty))
 
